@@ -5,7 +5,7 @@
 (* action binds the logged fields and evaluates the property rules of       *)
 (* DESIGN.md Appendix B against the Ref layer.                              *)
 (***************************************************************************)
-EXTENDS TraceBase, Message, NameText
+EXTENDS TraceBase, Message, NameText, Bytes
 
 VARIABLES l          \* index of the next event to consume
 vars == <<l>>
@@ -244,6 +244,20 @@ TracePeek ==
                /\ Len(Ev.b) >= 12 => Ev.r[i][1] = "ok",
                <<"peek", i, "len", Len(Ev.b), Ev.r[i]>>)
 
+(* Inspect (C12): observers applied to the parts of a parsed packet.           *)
+(* e.obs[i] = <<observer, part, raw bytes (fallible conversions), outcome>>    *)
+(* outcome = <<"ok">> | <<"err">> | <<"panic", where>>                         *)
+FallibleObservers == {"cstr.string_try_from", "txt.long_attributes", "txt.string_try_from"}
+
+ObserverOK(o) ==
+  /\ o[4][1] # "panic"
+  /\ IF o[1] \in FallibleObservers THEN (o[4][1] = "ok") = Utf8Ok(o[3]) ELSE o[4][1] = "ok"
+
+TraceInspect ==
+  /\ Ev.ev = "Inspect"
+  /\ \A i \in 1 .. Len(Ev.obs) :
+       Rule(l, "ObserverTotal", ObserverOK(Ev.obs[i]), <<Ev.obs[i][1], Ev.obs[i][2], Ev.obs[i][4], "utf8", Utf8Ok(Ev.obs[i][3])>>)
+
 (* Reparse (C11): bytes e.b accepted by the parser (e.p1), re-serialised plain  *)
 (* (e.b2) and compressed (e.b3), each parsed again (e.p2, e.p3)                 *)
 TraceReparse ==
@@ -265,7 +279,7 @@ Next == /\ l <= Len(Rec)
            \/ TraceFlagOps
            \/ TraceNameDecode
            \/ TraceNameNew \/ TraceLabelNew \/ TraceNameRel
-           \/ TraceParse \/ TracePeek \/ TraceRoundTrip \/ TraceReparse
+           \/ TraceParse \/ TracePeek \/ TraceInspect \/ TraceRoundTrip \/ TraceReparse
            \/ TraceCodeConv \/ TraceMnemonics \/ TraceMatchType \/ TraceMatchClass
 
 Spec == Init /\ [][Next]_vars
